@@ -40,6 +40,9 @@ pub enum Packing {
     PduAcrossTwoRecords,
     RecordAcrossTwoSegments,
     OnePerRecordWithPauses,
+    /// PDUs without any update ride along: an empty short-form fast-path PDU (00 02) after the first bitmap PDU in
+    /// the same record, an empty long-form one (00 80 03) in front of the third
+    EmptyPdusInside,
 }
 
 #[derive(Clone, Copy, Debug, Serialize, PartialEq)]
@@ -50,6 +53,8 @@ pub enum End {
     AbruptClose,
     UndecodableRdpKind,
     UndecodableIoKind,
+    /// a header-only TPKT frame (03 00 00 04): no X.224 header can be decoded from its empty payload
+    UndecodableEmptyFrame,
 }
 
 #[derive(Clone, Copy, Debug, Serialize)]
@@ -62,9 +67,9 @@ pub struct Script {
 
 pub fn scripts() -> Vec<Script> {
     let mut v = vec![];
-    for packing in [Packing::OnePerRecord, Packing::TwoThenOne, Packing::ThreeInOne, Packing::PduAcrossTwoRecords, Packing::RecordAcrossTwoSegments, Packing::OnePerRecordWithPauses] {
+    for packing in [Packing::OnePerRecord, Packing::TwoThenOne, Packing::ThreeInOne, Packing::PduAcrossTwoRecords, Packing::RecordAcrossTwoSegments, Packing::OnePerRecordWithPauses, Packing::EmptyPdusInside] {
         v.push(Script { packing, end: End::None, end_after: 3 });
-        for end in [End::DisconnectUltimatum, End::CloseNotify, End::AbruptClose, End::UndecodableRdpKind, End::UndecodableIoKind] {
+        for end in [End::DisconnectUltimatum, End::CloseNotify, End::AbruptClose, End::UndecodableRdpKind, End::UndecodableIoKind, End::UndecodableEmptyFrame] {
             for end_after in 0..=3 {
                 v.push(Script { packing, end, end_after });
             }
@@ -250,6 +255,18 @@ impl Read for SchedLink {
                 }
                 if st.closed || st.teardown {
                     return Ok(0);
+                }
+                // about to block inside a read: legitimate only while a PDU is partly received
+                if let Some(off) = st.end_offset {
+                    if st.delivered >= off {
+                        violation(&mut st, "did-not-stop-after-session-ending-pdu", "the thread reads on (blocking, holding the client) after the PDU that ends the session had been consumed".to_string());
+                        st.teardown = true;
+                        drop(st);
+                        if let Some(s) = c.sync.borrow().as_ref() {
+                            s.store(false, Ordering::SeqCst);
+                        }
+                        return Ok(0);
+                    }
                 }
                 st.r_blocked_in_read = true;
             }
@@ -511,6 +528,16 @@ fn build_actions(script: &Script, peer: &mut TlsPeer, st: &mut State) -> Vec<Env
                 push_record(&all, pdus.len(), false, &mut actions, st, &mut raw_off, &mut pdus_done);
             }
         }
+        Packing::EmptyPdusInside => {
+            for (i, p) in pdus.iter().enumerate() {
+                let plain = match i {
+                    0 => [p.clone(), vec![0x00, 0x02]].concat(),
+                    2 => [vec![0x00, 0x80, 0x03], p.clone()].concat(),
+                    _ => p.clone(),
+                };
+                push_record(&plain, 1, false, &mut actions, st, &mut raw_off, &mut pdus_done);
+            }
+        }
         Packing::PduAcrossTwoRecords => {
             for p in &pdus {
                 let cut = p.len() / 2;
@@ -540,6 +567,12 @@ fn build_actions(script: &Script, peer: &mut TlsPeer, st: &mut State) -> Vec<Env
             // send-data indication cut inside its header (I/O kind of decoding error)
             let f = framing::tpkt(&framing::x224_dt(&[26 << 2]));
             let rec = peer.encrypt(&f);
+            raw_off += rec.len();
+            st.end_offset = Some(raw_off);
+            actions.push(EnvAction::Push(rec));
+        }
+        End::UndecodableEmptyFrame => {
+            let rec = peer.encrypt(&[0x03, 0x00, 0x00, 0x04]);
             raw_off += rec.len();
             st.end_offset = Some(raw_off);
             actions.push(EnvAction::Push(rec));
